@@ -970,7 +970,7 @@ func TestVerifC09(t *testing.T) {
 	base := verifkit.TmpDir(t, "c09-")
 	var sweepKs []int
 	if os.Getenv("VERIF_C09_BIG") == "1" { // 17 MiB bodies: a few offsets instead of every byte
-		sweepKs = []int{0, 1, 3, 4, 19, 20, 21, 1 << 20, 17825811, 17825812}
+		sweepKs = []int{0, 3, 4, 20, 1 << 20, 17825811, 17825812}
 	}
 	workers := verifkit.EnvInt("VERIF_C09_WORKERS", 6)
 	var wg sync.WaitGroup
